@@ -28,7 +28,7 @@ Print Assumptions C11_options_layout_only.
 (* every string, as value or key, is quoted into a JSON string denoting exactly it *)
 Theorem C11_every_string_quoted :
   forall s, json_value (quote s) (Leaf (SStr s)) /\ chars_denote (json_escape s) s.
-Proof. intros s. split; [apply quote_value|apply escape_denotes]. Qed.
+Proof. exact (fun s => conj (quote_value s) (escape_denotes s)). Qed.
 Print Assumptions C11_every_string_quoted.
 
 (* skip_empty_arrays changes the value only by dropping empty containers: a tree
@@ -36,7 +36,7 @@ Print Assumptions C11_every_string_quoted.
 Theorem C11_skip_drops_only_empties :
   (forall t, no_empty t = true -> exported true t = exported false t) /\
   (forall t t', prune t = Some t' -> no_empty t' = true).
-Proof. split; [exact skip_changes_nothing_without_empties|exact prune_no_empty]. Qed.
+Proof. exact (conj skip_changes_nothing_without_empties prune_no_empty). Qed.
 Print Assumptions C11_skip_drops_only_empties.
 
 (* [ext] a necessary condition for being a JSON text at all, as an executable scanner (string
@@ -54,7 +54,7 @@ Print Assumptions C11_scan_necessary.
    the navigation itself are checked on the implementation by the oracle of the check. *)
 Theorem C11_load_hook_partial :
   forall t, erase (hook t) = erase t /\ dicts_n0 (hook t) = true.
-Proof. intros t. split; [apply hook_erase|apply hook_n0]. Qed.
+Proof. exact (fun t => conj (hook_erase t) (hook_n0 t)). Qed.
 Print Assumptions C11_load_hook_partial.
 
 (* Non-vacuity: a tree with every critical feature (quote, backslash, newline, U+0001,
